@@ -43,6 +43,17 @@ theorem aget_aset_self (k : κ) (v : α) (l : List (κ × α)) : aget k (aset k 
 theorem aget_aset_ne {k k' : κ} (h : k' ≠ k) (v : α) (l : List (κ × α)) : aget k (aset k' v l) = aget k l := by
   unfold aset; rw [aget_cons, if_neg h]; exact aget_aerase_ne h l
 
+theorem aget_map_val (f : α → α) (k : κ) (l : List (κ × α)) :
+    aget k (l.map fun p => (p.1, f p.2)) = (aget k l).map f := by
+  induction l with
+  | nil => rfl
+  | cons p t ih =>
+    obtain ⟨k', v⟩ := p
+    simp only [List.map_cons, aget_cons]
+    by_cases h : k' = k
+    · rw [if_pos h, if_pos h]; rfl
+    · rw [if_neg h, if_neg h]; exact ih
+
 end AList
 
 /-! ## bank -/
